@@ -196,6 +196,8 @@ pub fn run_topic(topic: &str, cx: &mut Ctx) -> bool {
         "refs" => refs(cx),
         "parse_eval" => parse_eval(cx),
         "total" => total(cx),
+        "conv" => conv(cx),
+        "strings" => strings(cx),
         _ => return false,
     }
     true
@@ -1402,6 +1404,418 @@ pub fn total(cx: &mut Ctx) {
             bin("!=", T::List(vec![id("x")]), T::List(vec![bin("/", lit(V::Int(1)), lit(V::Int(0)))])), T::FStr(vec![Seg::Expr(id("x"))]),
             T::Match { e: Box::new(id("x")), cases: vec![(Pat::Type("int".into()), lit(V::Int(1))), (Pat::Cmp("<".into(), id("x")), lit(V::Int(2))), (Pat::Type("dyn".into()), lit(V::Int(3))), (Pat::Type("type".into()), lit(V::Int(4))), (Pat::Type("null_type".into()), lit(V::Int(5)))] }] {
             emit(cx, t, vec![("x".into(), a.clone())]);
+        }
+    }
+}
+
+// ---------------------------------------------------------------------------------------------
+// C14: conversions and f-strings
+
+pub fn conv(cx: &mut Ctx) {
+    let convs = ["int", "uint", "double", "float", "string", "bytes", "bool", "type", "dyn"];
+    let mut pool = grid_numeric();
+    pool.extend(non_numeric());
+    pool.extend(time_edges());
+    let strs = ["0", "1", "-1", "+1", " 1", "1 ", "007", "-0", "9223372036854775807", "9223372036854775808", "-9223372036854775808", "-9223372036854775809", "18446744073709551615", "18446744073709551616",
+        "1.5", "-1.5", "1e3", "1E3", "1e-3", ".5", "5.", "1.0", "0x10", "1_000", "1,5", "inf", "-inf", "Infinity", "nan", "NaN", "", " ", "abc", "1x", "x1", "١٢٣", "１２", "é", "true", "false", "TRUE", "True", "t", "f", "T", "F", "yes", "no", "0.0",
+        "1.7976931348623157e308", "1e309", "4.9e-324", "2.2250738585072014e-308", "0.1", "0.30000000000000004", "9007199254740993", "123456789012345678", "1e22", "1e23", "-0.0", "null"];
+    for s in strs {
+        pool.push(V::Str(s.to_string()));
+    }
+    for b in [vec![0xffu8], vec![0xc3, 0xa9], vec![0xc3], vec![0xe2, 0x82], vec![0xed, 0xa0, 0x80], vec![0xf4, 0x90, 0x80, 0x80], vec![0xc0, 0x80], vec![0xf0, 0x9d, 0x84, 0x9e], vec![49, 50], vec![]] {
+        pool.push(V::Bytes(b));
+    }
+    for f in convs {
+        for v in pool.iter() {
+            let mut c = cx.case(call(f, vec![id("x")]));
+            c.bind.insert("x".into(), v.clone());
+            c.forms = forms(&["bound", "lit"]);
+            cx.out(c);
+            // type(T(x)) == T
+            if f != "type" && f != "dyn" {
+                let tname = if f == "float" { "double" } else { f };
+                let mut c = cx.case(bin("==", call("type", vec![call(f, vec![id("x")])]), id(tname)));
+                c.bind.insert("x".into(), v.clone());
+                c.forms = forms(&["bound"]);
+                cx.out(c);
+            }
+        }
+        // (arity checks belong to the signature table of C15)
+    }
+    // round-trip laws on random values
+    for _ in 0..cx.n {
+        let i = rand_i64(&mut cx.rng);
+        let u = rand_u64(&mut cx.rng);
+        let d = rand_f64(&mut cx.rng);
+        let s = rand_string(&mut cx.rng, 8);
+        for (t, name, v) in [
+            (bin("==", call("int", vec![call("string", vec![id("x")])]), id("x")), "x", V::Int(i)),
+            (bin("==", call("uint", vec![call("string", vec![id("x")])]), id("x")), "x", V::Uint(u)),
+            (bin("==", call("string", vec![call("bytes", vec![id("x")])]), id("x")), "x", V::Str(s.clone())),
+            (call("int", vec![id("x")]), "x", V::Dbl(d)),
+            (call("uint", vec![id("x")]), "x", V::Dbl(d)),
+            (call("double", vec![id("x")]), "x", V::Int(i)),
+            (call("double", vec![id("x")]), "x", V::Uint(u)),
+            (call("int", vec![id("x")]), "x", V::Uint(u)),
+            (call("uint", vec![id("x")]), "x", V::Int(i)),
+            (call("double", vec![id("x")]), "x", V::Str(crate::tree::dbl_literal(d.abs()))),
+            (call("int", vec![id("x")]), "x", V::Str(format!("{}", i))),
+            (call("uint", vec![id("x")]), "x", V::Str(format!("{}", u))),
+        ] {
+            let mut c = cx.case(t);
+            c.bind.insert(name.into(), v);
+            c.forms = forms(&["bound", "lit"]);
+            cx.out(c);
+        }
+        // double(string(d)) == d for finite d: law on the observed string
+        if d.is_finite() {
+            let mut c = cx.case(call("string", vec![id("x")]));
+            c.bind.insert("x".into(), V::Dbl(d));
+            c.forms = forms(&["bound", "lit"]);
+            c.extra = serde_json::json!({"law": "dblstr"});
+            cx.out(c);
+            let mut c = cx.case(bin("==", call("double", vec![call("string", vec![id("x")])]), id("x")));
+            c.bind.insert("x".into(), V::Dbl(d));
+            c.forms = forms(&["bound", "lit"]);
+            c.extra = serde_json::json!({"law": "istrue"});
+            cx.out(c);
+        }
+    }
+    // f-strings: literal parts (with doubled braces) and embedded expressions of every type
+    let embeds: Vec<(V, bool)> = vec![
+        (V::Int(-5), true), (V::Uint(7), true), (V::Dbl(1.5), true), (V::Dbl(1e300), true), (V::Str("é'\"{}".into()), true), (V::Bytes(vec![104, 105]), true), (V::Bytes(vec![0xff]), false),
+        (V::Bool(true), false), (V::Null, false), (V::List(vec![V::Int(1)]), false), (V::Map(vec![]), false), (V::Ts(1_700_000_000_000_000_000), true), (V::Dur(3_600_000_000_000), true), (V::Type("int".into()), false), (V::Int(i64::MIN), true),
+    ];
+    let lits = ["", "a", "{", "}", "{}", "x{y}z", " é ", "'", "\"", "\\", "\n", "𝄞"];
+    let nf = if cx.thorough { 4000 } else { 500 } + cx.n;
+    for _ in 0..nf {
+        let nseg = 1 + cx.rng.below(4) as usize;
+        let mut segs = Vec::new();
+        let mut concat: Option<T> = None;
+        let mut c = Case::new(String::new(), lit(V::Null));
+        let mut all_conv = true;
+        for k in 0..nseg {
+            let (seg, part) = if cx.rng.chance(1, 2) {
+                let l = cx.rng.pick_str(&lits).to_string();
+                if l.is_empty() {
+                    continue;
+                }
+                (Seg::Lit(l.clone()), lit(V::Str(l)))
+            } else {
+                let (v, convertible) = cx.rng.pick(&embeds).clone();
+                all_conv &= convertible;
+                let name = format!("e{}", k);
+                c.bind.insert(name.clone(), v);
+                let e = if cx.rng.chance(1, 4) { bin("+", id(&name), id(&name)) } else { id(&name) };
+                (Seg::Expr(e.clone()), call("string", vec![e]))
+            };
+            segs.push(seg);
+            concat = Some(match concat {
+                None => part,
+                Some(p) => bin("+", p, part),
+            });
+        }
+        if segs.is_empty() || !segs.iter().any(|s| matches!(s, Seg::Expr(_))) {
+            continue;
+        }
+        // the f-string itself (exact where string() is exact) ...
+        let mut c1 = cx.case(T::FStr(segs.clone()));
+        c1.bind = c.bind.clone();
+        c1.forms = forms(&["bound", "lit"]);
+        cx.out(c1);
+        // ... and the defining equation, evaluated by the implementation on both sides
+        let mut c2 = cx.case(bin("==", T::FStr(segs), concat.unwrap()));
+        c2.bind = c.bind.clone();
+        c2.forms = forms(&["bound", "lit"]);
+        c2.extra = serde_json::json!({"law": if all_conv { "istrue-or-arith-err" } else { "true-or-err" }});
+        cx.out(c2);
+    }
+}
+
+// ---------------------------------------------------------------------------------------------
+// C15: string, regex and math built-ins
+
+#[derive(Clone, Debug)]
+pub enum Re {
+    Chr(char),
+    Any,
+    Cls(bool, Vec<(char, char)>),
+    Cat(Vec<Re>),
+    Alt(Vec<Re>),
+    Star(Box<Re>),
+    Plus(Box<Re>),
+    Opt(Box<Re>),
+    Grp(Box<Re>),
+    Bol,
+    Eol,
+}
+
+impl Re {
+    pub fn to_json(&self) -> serde_json::Value {
+        use serde_json::json;
+        match self {
+            Re::Chr(c) => json!({"k":"chr","c":*c as u32}),
+            Re::Any => json!({"k":"any"}),
+            Re::Cls(neg, rs) => json!({"k":"cls","neg":neg,"ranges":rs.iter().map(|(a,b)| json!([*a as u32, *b as u32])).collect::<Vec<_>>()}),
+            Re::Cat(es) => json!({"k":"cat","es":es.iter().map(|e| e.to_json()).collect::<Vec<_>>()}),
+            Re::Alt(es) => json!({"k":"alt","es":es.iter().map(|e| e.to_json()).collect::<Vec<_>>()}),
+            Re::Star(e) => json!({"k":"star","e":e.to_json()}),
+            Re::Plus(e) => json!({"k":"plus","e":e.to_json()}),
+            Re::Opt(e) => json!({"k":"opt","e":e.to_json()}),
+            Re::Grp(e) => json!({"k":"grp","e":e.to_json()}),
+            Re::Bol => json!({"k":"bol"}),
+            Re::Eol => json!({"k":"eol"}),
+        }
+    }
+    pub fn render(&self) -> String {
+        match self {
+            Re::Chr(c) => {
+                if "\\.[]()*+?|^$".contains(*c) { format!("\\{}", c) } else { c.to_string() }
+            }
+            Re::Any => ".".into(),
+            Re::Cls(neg, rs) => format!("[{}{}]", if *neg { "^" } else { "" }, rs.iter().map(|(a, b)| if a == b { a.to_string() } else { format!("{}-{}", a, b) }).collect::<String>()),
+            Re::Cat(es) => es.iter().map(|e| match e { Re::Alt(_) => format!("(?:{})", e.render()), _ => e.render() }).collect(),
+            Re::Alt(es) => es.iter().map(|e| e.render()).collect::<Vec<_>>().join("|"),
+            Re::Star(e) => format!("{}*", Self::atom(e)),
+            Re::Plus(e) => format!("{}+", Self::atom(e)),
+            Re::Opt(e) => format!("{}?", Self::atom(e)),
+            Re::Grp(e) => format!("({})", e.render()),
+            Re::Bol => "^".into(),
+            Re::Eol => "$".into(),
+        }
+    }
+    fn atom(e: &Re) -> String {
+        match e {
+            Re::Chr(_) | Re::Any | Re::Cls(..) | Re::Grp(_) => e.render(),
+            _ => format!("(?:{})", e.render()),
+        }
+    }
+}
+
+fn rand_re(r: &mut Rng, depth: u32) -> Re {
+    let leaf = |r: &mut Rng| match r.below(6) {
+        0..=2 => Re::Chr(*r.pick(&['a', 'b', 'c', 'é'])),
+        3 => Re::Any,
+        4 => Re::Cls(r.chance(1, 4), vec![('a', 'b')]),
+        _ => Re::Cls(false, vec![('b', 'b'), ('é', 'é')]),
+    };
+    if depth == 0 {
+        return leaf(r);
+    }
+    match r.below(9) {
+        0 | 1 => leaf(r),
+        2 | 3 => Re::Cat((0..2 + r.below(2)).map(|_| rand_re(r, depth - 1)).collect()),
+        4 => Re::Alt((0..2).map(|_| rand_re(r, depth - 1)).collect()),
+        5 => Re::Star(Box::new(rand_re(r, depth - 1))),
+        6 => Re::Plus(Box::new(rand_re(r, depth - 1))),
+        7 => Re::Opt(Box::new(rand_re(r, depth - 1))),
+        _ => match r.below(3) {
+            0 => Re::Cat(vec![Re::Bol, rand_re(r, depth - 1)]),
+            1 => Re::Cat(vec![rand_re(r, depth - 1), Re::Eol]),
+            _ => Re::Grp(Box::new(rand_re(r, depth - 1))),
+        },
+    }
+}
+
+pub fn strings(cx: &mut Ctx) {
+    let alpha = ['a', 'B', 'ß', 'É', 'İ', 'σ', ' ', '\t', ',', '𝄞', 'b', 'é'];
+    let needles = ["", "a", "aa", "B", "b", "é", "É", "ß", "ss", " ", ",", "𝄞", "zz", "aB", "i", "İ", "σ", "Σ", "a,"];
+    let rand_s = |r: &mut Rng, maxlen: u64| -> String {
+        let n = r.below(maxlen + 1);
+        (0..n).map(|_| if r.chance(1, 3) { 'a' } else { *r.pick(&alpha) }).collect()
+    };
+    let f1 = ["contains", "containsI", "startsWith", "endsWith", "startsWithI", "endsWithI", "split", "rsplit", "remove", "trimStartMatches", "trimEndMatches"];
+    let f0 = ["trim", "trimStart", "trimEnd", "splitWhiteSpace", "toLower", "toUpper"];
+    // short strings: all strings of length <= 2 over the alphabet, sampled above; each needle; each function
+    let mut shorts: Vec<String> = vec![String::new()];
+    for a in alpha {
+        shorts.push(a.to_string());
+        for b in alpha {
+            shorts.push(format!("{}{}", a, b));
+        }
+    }
+    for _ in 0..(if cx.thorough { 3000 } else { 150 }) {
+        shorts.push(rand_s(&mut cx.rng, 4));
+        let k = cx.rng.below(3) + 1;
+        shorts.push("aa".repeat(k as usize) + if cx.rng.chance(1, 2) { "a" } else { "" });
+        shorts.push(format!("{}{}{}", cx.rng.pick_str(&[" ", "\t ", "\n", ""]), rand_s(&mut cx.rng, 3), cx.rng.pick_str(&[" ", " \t", "\u{a0}", ""])));
+    }
+    for s in shorts.iter() {
+        for f in f0 {
+            let mut c = cx.case(mcall(id("s"), f, vec![]));
+            c.bind.insert("s".into(), V::Str(s.clone()));
+            c.forms = forms(&["bound", "lit"]);
+            cx.out(c);
+        }
+        for f in f1 {
+            let picks = if cx.thorough { needles.len() } else { 3 };
+            for k in 0..picks {
+                let n = if cx.thorough { needles[k] } else { cx.rng.pick_str(&needles) };
+                let mut c = cx.case(mcall(id("s"), f, vec![id("n")]));
+                c.bind.insert("s".into(), V::Str(s.clone()));
+                c.bind.insert("n".into(), V::Str(n.to_string()));
+                c.forms = forms(&["bound", "lit"]);
+                cx.out(c);
+            }
+        }
+        // replace, splitAt
+        let n = cx.rng.pick_str(&needles);
+        let to = cx.rng.pick_str(&needles);
+        let mut c = cx.case(mcall(id("s"), "replace", vec![id("n"), id("t")]));
+        c.bind.insert("s".into(), V::Str(s.clone()));
+        c.bind.insert("n".into(), V::Str(n.to_string()));
+        c.bind.insert("t".into(), V::Str(to.to_string()));
+        c.forms = forms(&["bound", "lit"]);
+        cx.out(c);
+        for at in [-1i64, 0, 1, 2, 3, 4, 5, 9, i64::MAX] {
+            let mut c = cx.case(mcall(id("s"), "splitAt", vec![id("i")]));
+            c.bind.insert("s".into(), V::Str(s.clone()));
+            c.bind.insert("i".into(), V::Int(at));
+            c.forms = forms(&["bound", "lit"]);
+            cx.out(c);
+        }
+    }
+    // laws evaluated by the implementation on longer random strings
+    for _ in 0..cx.n {
+        let s = rand_s(&mut cx.rng, 40);
+        let n = if cx.rng.chance(1, 2) { rand_s(&mut cx.rng, 2) } else { cx.rng.pick_str(&needles).to_string() };
+        if n.is_empty() {
+            continue;
+        }
+        let laws: Vec<T> = vec![
+            // join(split) == s   (join written as a reduce)
+            bin("==", mcall(mcall(id("s"), "split", vec![id("n")]), "reduce", vec![id("acc"), id("p"), tern(bin("==", id("acc"), lit(V::Null)), id("p"), bin("+", bin("+", id("acc"), id("n")), id("p"))), lit(V::Null)]), id("s")),
+            // no piece of split contains the delimiter
+            mcall(mcall(id("s"), "split", vec![id("n")]), "all", vec![id("p"), un('!', 1, mcall(id("p"), "contains", vec![id("n")]))]),
+            bin("==", mcall(id("s"), "replace", vec![id("n"), id("n")]), id("s")),
+            bin("==", mcall(id("s"), "contains", vec![id("n")]), bin("in", id("n"), id("s"))),
+            bin("==", mcall(mcall(id("s"), "trim", vec![]), "trim", vec![]), mcall(id("s"), "trim", vec![])),
+            bin("==", bin("+", id("n"), id("s")), bin("+", id("n"), id("s"))),
+            mcall(bin("+", id("n"), id("s")), "startsWith", vec![id("n")]),
+            mcall(bin("+", id("s"), id("n")), "endsWith", vec![id("n")]),
+            un('!', 1, mcall(mcall(id("s"), "remove", vec![id("n")]), "contains", vec![id("n")])),
+        ];
+        for (k, t) in laws.into_iter().enumerate() {
+            let mut c = cx.case(t);
+            c.bind.insert("s".into(), V::Str(s.clone()));
+            c.bind.insert("n".into(), V::Str(n.clone()));
+            c.forms = forms(&["bound"]);
+            // remove can re-create an occurrence ("aab".remove("ab") = "a" is fine, "aabb".remove("ab") = "ab"): not a law
+            if k != 8 {
+                c.extra = serde_json::json!({"law": "istrue"});
+            }
+            cx.out(c);
+        }
+    }
+    // regular expressions from the subset grammar
+    let nre = if cx.thorough { 6000 } else { 500 } + cx.n;
+    for _ in 0..nre {
+        let rdepth = 1 + cx.rng.below(3) as u32;
+        let re = rand_re(&mut cx.rng, rdepth);
+        let pat = re.render();
+        let s: String = (0..cx.rng.below(6)).map(|_| *cx.rng.pick(&['a', 'b', 'c', 'é', '\n'])).collect();
+        let mut c = cx.case(mcall(id("s"), "matches", vec![id("p")]));
+        c.bind.insert("s".into(), V::Str(s.clone()));
+        c.bind.insert("p".into(), V::Str(pat.clone()));
+        c.forms = forms(&["bound", "lit"]);
+        c.extra = serde_json::json!({"law": "rematch", "re": re.to_json()});
+        cx.out(c);
+        let mut c = cx.case(mcall(id("s"), "matchCaptures", vec![id("p")]));
+        c.bind.insert("s".into(), V::Str(s.clone()));
+        c.bind.insert("p".into(), V::Str(pat.clone()));
+        c.forms = forms(&["bound"]);
+        c.extra = serde_json::json!({"law": "recapture", "re": re.to_json()});
+        cx.out(c);
+        let mut c = cx.case(bin("==", mcall(id("s"), "matchReplace", vec![id("p"), lit(V::Str("$0".into()))]), id("s")));
+        c.bind.insert("s".into(), V::Str(s.clone()));
+        c.bind.insert("p".into(), V::Str(pat.clone()));
+        c.forms = forms(&["bound"]);
+        c.extra = serde_json::json!({"law": "istrue"});
+        cx.out(c);
+        let mut c = cx.case(bin("==", mcall(id("s"), "matchReplaceOnce", vec![id("p"), lit(V::Str("$0".into()))]), id("s")));
+        c.bind.insert("s".into(), V::Str(s));
+        c.bind.insert("p".into(), V::Str(pat));
+        c.forms = forms(&["bound"]);
+        c.extra = serde_json::json!({"law": "istrue"});
+        cx.out(c);
+    }
+    for bad in ["(", ")", "[", "*", "+a", "a{2,1}", "(?P<x", "\\", "[z-a]", "(?z)", "a{99999999999}"] {
+        for f in ["matches", "matchCaptures"] {
+            let mut c = cx.case(mcall(lit(V::Str("abc".into())), f, vec![id("p")]));
+            c.bind.insert("p".into(), V::Str(bad.to_string()));
+            c.forms = forms(&["bound", "lit"]);
+            c.extra = serde_json::json!({"law": "reerr"});
+            cx.out(c);
+        }
+        let mut c = cx.case(mcall(lit(V::Str("abc".into())), "matchReplace", vec![id("p"), lit(V::Str("x".into()))]));
+        c.bind.insert("p".into(), V::Str(bad.to_string()));
+        c.forms = forms(&["bound"]);
+        c.extra = serde_json::json!({"law": "reerr"});
+        cx.out(c);
+    }
+    // math on the boundary grid
+    let grid = grid_numeric();
+    for f in ["abs", "sqrt", "log", "lg", "ceil", "floor", "round"] {
+        for v in grid.iter() {
+            for t in [call(f, vec![id("x")]), mcall(id("x"), f, vec![])] {
+                let mut c = cx.case(t);
+                c.bind.insert("x".into(), v.clone());
+                c.forms = forms(&["bound", "lit"]);
+                cx.out(c);
+            }
+        }
+    }
+    let smalls: Vec<V> = vec![V::Int(0), V::Int(1), V::Int(-1), V::Int(2), V::Int(-2), V::Int(3), V::Int(10), V::Int(-10), V::Int(62), V::Int(63), V::Int(64), V::Int(65), V::Int(-3), V::Int(i64::MAX), V::Int(i64::MIN), V::Int(3037000499), V::Int(3037000500),
+        V::Uint(0), V::Uint(1), V::Uint(2), V::Uint(3), V::Uint(63), V::Uint(64), V::Uint(65), V::Uint(u64::MAX), V::Uint(4294967296), V::Dbl(0.5), V::Dbl(2.0), V::Dbl(-1.0), V::Dbl(f64::NAN)];
+    for a in smalls.iter() {
+        for b in smalls.iter() {
+            let mut c = cx.case(call("pow", vec![id("x"), id("y")]));
+            c.bind.insert("x".into(), a.clone());
+            c.bind.insert("y".into(), b.clone());
+            c.forms = forms(&["bound", "lit"]);
+            cx.out(c);
+        }
+    }
+    for _ in 0..cx.n {
+        let x = rand_numeric(&mut cx.rng);
+        let f = cx.rng.pick_str(&["abs", "sqrt", "log", "lg", "ceil", "floor", "round"]);
+        let mut c = cx.case(call(f, vec![id("x")]));
+        c.bind.insert("x".into(), x);
+        c.forms = forms(&["bound", "lit"]);
+        cx.out(c);
+        // sqrt(x)*sqrt(x) vs x is not exact; perfect squares are
+        let k = cx.rng.below(3037000499) as i64;
+        let mut c = cx.case(call("sqrt", vec![id("x")]));
+        c.bind.insert("x".into(), V::Int(k * k));
+        c.forms = forms(&["bound"]);
+        cx.out(c);
+    }
+    // the signature table: every function, arities 0..3, argument type tuples
+    // (null is left out of the table: the dispatcher cannot tell an explicit null from a missing argument,
+    //  which is demonstrated once below and recorded as a finding)
+    let tvals: Vec<V> = vec![V::Int(1), V::Uint(1), V::Dbl(1.0), V::Str("a".into()), V::Bool(true), V::List(vec![]), V::Bytes(vec![97])];
+    for t in [mcall(lit(V::Str("abc".into())), "contains", vec![lit(V::Str("a".into())), lit(V::Null)]), mcall(lit(V::Null), "size", vec![lit(V::Str("a".into()))]), call("abs", vec![lit(V::Int(-1)), lit(V::Null)])] {
+        let mut c = cx.case(t);
+        c.forms = forms(&["bound"]);
+        cx.out(c);
+    }
+    let mut names: Vec<&str> = vec!["contains", "containsI", "startsWith", "endsWith", "startsWithI", "endsWithI", "split", "rsplit", "replace", "remove", "trim", "trimStart", "trimEnd", "trimStartMatches", "trimEndMatches", "splitWhiteSpace", "toLower", "toUpper", "splitAt", "matches", "matchCaptures", "matchReplace", "matchReplaceOnce"];
+    names.extend(["abs", "sqrt", "log", "lg", "ceil", "floor", "round", "pow", "size"]);
+    for f in names {
+        for recv in tvals.iter() {
+            for nargs in 0..=3usize {
+                let reps = if nargs == 0 { 1 } else if cx.thorough { 24 } else { 4 };
+                for _ in 0..reps {
+                    let args: Vec<T> = (0..nargs).map(|i| id(&format!("a{}", i))).collect();
+                    let mut c = cx.case(mcall(id("r"), f, args));
+                    c.bind.insert("r".into(), recv.clone());
+                    for i in 0..nargs {
+                        c.bind.insert(format!("a{}", i), cx.rng.pick(&tvals).clone());
+                    }
+                    c.forms = forms(&["bound", "lit"]);
+                    cx.out(c);
+                }
+            }
         }
     }
 }
